@@ -350,8 +350,10 @@ def chunk_worker(args):
                 c = "!" + c
             res["t3n"][c] = res["t3n"].get(c, 0) + 1
             cur = res["t3"].get(c)
-            if cur is None or len(line) < len(cur["case"]):
-                res["t3"][c] = {"case": line, "impl": il, "model": "D=%s R=%s" % (mp["D"], mp["R"]), "why": why}
+            rank = (len(line), kind == "S" and a == b)       # shortest; a non-empty span before an empty one
+            if cur is None or rank < cur["rank"]:
+                res["t3"][c] = {"case": line, "impl": il, "model": "D=%s R=%s" % (mp["D"], mp["R"]), "why": why,
+                                "rank": rank}
         # T4: outside the exclusions of the theorems the model equals the Coq specification
         excl = False
         if kind == "S":
@@ -494,7 +496,7 @@ def check(ctx):
         for c, n in r["t3n"].items():
             t3n[c] = t3n.get(c, 0) + n
         for c, v in r["t3"].items():
-            if c not in t3 or len(v["case"]) < len(t3[c]["case"]):
+            if c not in t3 or tuple(v["rank"]) < tuple(t3[c]["rank"]):
                 t3[c] = v
         ctx.samples += r["samples"]
         ctx.coverage["impl_panics"] = ctx.coverage.get("impl_panics", 0) + r["panics"]
